@@ -245,9 +245,12 @@ def forms_rules(repo, rep):
         if isinstance(r, ast.Call):
             # one constructor call whose flag is the comparison itself: K(fields, positive=x >= 0)
             for k in r.keywords:
-                if k.arg == 'positive' and isinstance(k.value, ast.Compare) and len(k.value.ops) == 1 and isinstance(k.value.ops[0], ast.GtE) \
-                        and isinstance(k.value.left, ast.Name) and k.value.left.id == f.params[0].name \
-                        and isinstance(k.value.comparators[0], ast.Constant) and k.value.comparators[0].value == 0:
+                kv = k.value
+                if isinstance(kv, ast.Call) and getattr(kv.func, 'id', '') == 'bool' and len(kv.args) == 1 and not kv.keywords:
+                    kv = kv.args[0]           # bool(x >= 0): a builtin bool for the identity tests of the constructors
+                if k.arg == 'positive' and isinstance(kv, ast.Compare) and len(kv.ops) == 1 and isinstance(kv.ops[0], ast.GtE) \
+                        and isinstance(kv.left, ast.Name) and kv.left.id == f.params[0].name \
+                        and isinstance(kv.comparators[0], ast.Constant) and kv.comparators[0].value == 0:
                     ok = True
         if ok:
             rep.holds('R-SIBLING', key, where(f, rets[-1]), '%s builds the same fields with positive=True for arguments >= 0 and positive=False otherwise' % q)
